@@ -212,6 +212,21 @@ run_seq(const Plan& p, sim::Result& res)
                 for (auto& x : twice)
                   x *= 2.f;
                 compare_rel(v2, twice, 1e-6, "linearity:scale", "activity doubled");
+                // very small and large activities (an image normalised to unit sum, or in other units): powers of two, so the
+                // scaled image is exact and the result has to scale up to rounding
+                for (int e : { -40, -33, 24 })
+                  {
+                    scat::State s3 = st;
+                    s3.act_scale = std::ldexp(1.f, e);
+                    scat::ProbeSSS X;
+                    shared_ptr<ProjDataInMemory> xo = scat::configure_fresh(X, p, s3);
+                    X.process_data();
+                    std::vector<float> vx = scat::values(*xo), want(vf);
+                    for (auto& x : want)
+                      x = std::ldexp(x, e);
+                    compare_rel(vx, want, 1e-5, "linearity:scale", e < 0 ? "activity scaled by a very small factor" : "activity scaled by a large factor");
+                  }
+                sim::probe("linearity_extreme_scales_checked");
                 shared_ptr<VoxelsOnCartesianGrid<float>> a1 = scat::make_activity(p, st.act), a2 = scat::make_activity(p, (st.act + 2) % 7);
                 if (a1->get_index_range() == a2->get_index_range())
                   {
